@@ -5,3 +5,4 @@ import SakuraVerif.Gen.Tables
 import SakuraVerif.Props.C04
 import SakuraVerif.Props.C15
 import SakuraVerif.Props.C17
+import SakuraVerif.Props.C10
